@@ -1,6 +1,8 @@
 """Registry of translators: name -> (function(repo, pins) -> (coq_text, info), output file in coq/Gen)."""
 import gen_enums
+import gen_merge
 
 GENERATORS = {
     'enums': (gen_enums.gen, 'EnumTables.v'),
+    'merge': (gen_merge.gen, 'Merge.v'),
 }
